@@ -194,7 +194,7 @@ func matchRunTable(st *matchState, t matchTable) {
 		if st.hdr.Strict {
 			opts = append(opts, rux.StrictLastSlash)
 		}
-		b.r = rux.New(opts...)
+		b.r = newRouter(opts...)
 		for i, e := range t.T {
 			func() {
 				defer func() {
@@ -432,9 +432,9 @@ func matchRecord(s *Summary, rng *rand.Rand, n int, out *traceWriter) {
 		out.emit(map[string]any{"op": "reset"})
 		opts := []func(*rux.Router){}
 		if rng.Intn(2) == 0 {
-			opts = append(opts, rux.CachingWithNum(uint16(1+rng.Intn(3))))
+			opts = append(opts, cachingOpts(1+rng.Intn(3))...)
 		}
-		r := rux.New(opts...)
+		r := newRouter(opts...)
 		routes := []*rux.Route{}
 		for i, e := range sc.routes {
 			routes = append(routes, r.AddNamed(fmt.Sprintf("r%d", i+1), e.pat.render(true), nopHandler, e.ms...))
